@@ -204,7 +204,7 @@ def simulate(gene, haplotypes, rl=100, depth=20, ref=None, rng=None, neutral=Non
     reads = []
     n = 0
     for hi, h in enumerate(haplotypes):
-        edits = edits_from_variants(h["variants"])
+        edits = h.get("edits") or edits_from_variants(h["variants"])
         if indel_placement == "left":
             edits = left_align(ref, edits)
         st = max(1, rl // h.get("depth", depth))
@@ -308,3 +308,37 @@ def contig_length(gene, neutral=None):
     if neutral:
         hi = max(hi, neutral[1])
     return hi + 3000
+
+
+def edits_from_written(model, written):
+    """Genome-level edits from variants in database (RefSeq) notation, through the generator's own
+    maps (ref/catalogue.YamlModel) - independent of aldy's loader."""
+    comp = {"A": "T", "C": "G", "G": "C", "T": "A", ".": "."}
+    subs, dels, ins = {}, [], {}
+    for pos1, op in written:
+        i = pos1 - 1
+        if ">" in op:
+            l, r = op.split(">")
+            for k in range(len(l)):
+                if l[k] != ".":
+                    c = model.r2c[i + k]
+                    subs[c] = r[k] if model.strand > 0 else comp[r[k]]
+        elif op.startswith("ins"):
+            x = op[3:]
+            if model.strand > 0:
+                ins[model.r2c[i]] = ins.get(model.r2c[i], "") + x
+            else:
+                c = model.r2c[i + 1]
+                ins[c] = ins.get(c, "") + "".join(comp[b] for b in reversed(x))
+        elif op.startswith("del"):
+            body = op[3:]
+            insseq = ""
+            if "ins" in body:
+                body, insseq = body.split("ins")
+            cs = [model.r2c[i + k] for k in range(len(body))]
+            a, b = min(cs), max(cs) + 1
+            dels.append((a, b))
+            if insseq:
+                y = insseq if model.strand > 0 else "".join(comp[b_] for b_ in reversed(insseq))
+                ins[a - 1] = ins.get(a - 1, "") + y
+    return subs, sorted(dels), ins
